@@ -12,9 +12,13 @@ Nothing here decides whether a program is safe: verdicts come from @proc, from v
 reference semantics."""
 from __future__ import annotations
 
+import importlib.util
+import os
 import random
 import re
+import sys
 
+import common
 import progen
 
 HEADER = progen.HEADER
@@ -581,3 +585,31 @@ def mutate(src: str, rng: random.Random):
             if new != src:
                 return kind, new
     return None
+
+
+# ---------------------------------------------------------------------------------------------- front end
+_count = [0]
+
+
+def load_module(src: str, tag: str = "c03"):
+    """progen.load_module with the full error text (its 300-character cut loses the part of exo's message that says
+    WHICH check failed): exec `src` as a real module file through the real @proc; -> (module | None, error text)"""
+    d = common.SCRATCH / "mods"
+    d.mkdir(parents=True, exist_ok=True)
+    _count[0] += 1
+    path = d / ("%s_%d_%d.py" % (tag, os.getpid(), _count[0]))
+    path.write_text(src)
+    spec = importlib.util.spec_from_file_location(path.stem, path)
+    mod = importlib.util.module_from_spec(spec)
+    sys.modules[path.stem] = mod
+    try:
+        spec.loader.exec_module(mod)
+        return mod, None
+    except Exception as e:  # front-end rejection (or a generator slip)
+        return None, "%s: %s" % (type(e).__name__, str(e)[:4000])
+    finally:
+        sys.modules.pop(path.stem, None)
+        try:
+            path.unlink()
+        except OSError:
+            pass
